@@ -5,9 +5,14 @@
 (*                                                                         *)
 (* File (env TRACE_FILE): [prog |-> Prog, traces |-> << trace >>]          *)
 (* trace = [t: type, ps: params, ev: << event >>]                          *)
-(* event = [e |-> "arr", n |-> length kept, b |-> byte, o |-> observation] *)
-(*           (n = -1: start from the empty buffer, no byte appended)       *)
-(*         [e |-> "wr", ...]  [e |-> "cp", ...] [e |-> "eq", ...]  see below*)
+(* State: one allocation `mem` and two windows onto it (two views of the   *)
+(* same struct type).  Events, one per driver command, each carrying what  *)
+(* the implementation reported:                                            *)
+(*  arr  n b o          keep n bytes of mem, append byte b (n = -1: empty); window 1 = all of mem   *)
+(*  mem  bytes a b o    new allocation, windows a = [o,l], b = [o,l]; o = observation of window 1   *)
+(*  wr   win path x could tried after o      CouldWriteValue / TryToWrite through window win        *)
+(*  eq   skipped ab ba                       Equals both ways (driver skips unless both views Ok)   *)
+(*  cp   dst ok after o                      window dst .TryToCopyFrom(other window)                *)
 (* observation = << <<key, tag, value>>, ... >>                            *)
 (***************************************************************************)
 EXTENDS Integers, Sequences, TLC, Json, IOUtils
@@ -20,19 +25,22 @@ INSTANCE View
 
 VARIABLES tid,      \* index of the trace being consumed
           i,        \* index of the next event in it
-          buf,      \* bytes currently available to the view
-          stack,    \* recorded observation for every prefix of buf (PrefixMonotone)
-          nbad,     \* number of mismatches found so far
+          mem,      \* the allocation
+          wins,     \* << window 1, window 2 >>, each [o, l]
+          stack,    \* recorded observation for every prefix of mem (PrefixMonotone, arr events)
+          nbad,     \* number of mismatching events found so far
           nev       \* number of events consumed
-vars == <<tid, i, buf, stack, nbad, nev>>
+vars == <<tid, i, mem, wins, stack, nbad, nev>>
 
 MaxReport == 60
 
+Tr == Traces[tid]
+Ev == Traces[tid].ev[i]
+
 Report(clause, exp, got) ==
   IF nbad < MaxReport
-  THEN PrintT(ToJson([tid |-> tid, ev |-> i, t |-> Traces[tid].t, ps |-> Traces[tid].ps, clause |-> clause,
-                      exp |-> exp, got |-> got, prev |-> buf, e |-> Traces[tid].ev[i].e,
-                      n |-> Traces[tid].ev[i].n, b |-> Traces[tid].ev[i].b]))
+  THEN PrintT(ToJson([tid |-> tid, ev |-> i, t |-> Tr.t, ps |-> Tr.ps, clause |-> clause,
+                      exp |-> exp, got |-> got, e |-> Ev.e]))
   ELSE TRUE
 
 EntryMatches(e, g) == e.k = g[1] /\ e.t = g[2] /\ (e.v = Wild \/ e.v = g[3])
@@ -50,6 +58,10 @@ Diffs(exp, got) ==
 
 Notes(exp) == {<<exp[j].k, exp[j].n>> : j \in {x \in 1..Len(exp) : exp[x].n # ""}}
 
+ObsBad(exp, got) == ~SameShape(exp, got)
+ObsReport(exp, got) ==
+  LET d == Diffs(exp, got) IN Report("ObsEqualsReference", [miss |-> d.miss, notes |-> Notes(exp)], d.extra)
+
 AsRec(g) == [k |-> g[1], t |-> g[2], v |-> g[3]]
 RecObs(o) == [j \in 1..Len(o) |-> AsRec(o[j])]
 
@@ -60,41 +72,100 @@ ClaimIn(o, j) ==
 NonMono(o1, o2) ==
   {j \in 1..Len(o1) : ClaimIn(o1, j) /\ ~\E m \in 1..Len(o2) : o2[m].k = o1[j].k /\ o2[m].t = o1[j].t /\ o2[m].v = o1[j].v}
 
-Init == tid = 1 /\ i = 1 /\ buf = <<>> /\ stack = <<>> /\ nbad = 0 /\ nev = 0
+B01(b) == IF b THEN 1 ELSE 0
+WholeWin(m) == [o |-> 0, l |-> Len(m)]
+Win(k) == wins[k]
+Other(k) == 3 - k
+ReplaceWindow(m, w, bytes) == SubSeq(m, 1, w.o) \o bytes \o SubSeq(m, w.o + w.l + 1, Len(m))
+
+Init == tid = 1 /\ i = 1 /\ mem = <<>> /\ wins = <<WholeWin(<<>>), WholeWin(<<>>)>> /\ stack = <<>> /\ nbad = 0 /\ nev = 0
+
+HaveEvent == tid <= Len(Traces) /\ i <= Len(Traces[tid].ev)
+Step == i' = i + 1 /\ nev' = nev + 1 /\ tid' = tid
 
 Arrive ==
-  /\ tid <= Len(Traces) /\ i <= Len(Traces[tid].ev)
-  /\ LET tr == Traces[tid]
-         ev == tr.ev[i]
-         nb == IF ev.n < 0 THEN <<>> ELSE SubSeq(buf, 1, ev.n) \o <<ev.b>>
-         exp == Obs(tr.t, tr.ps, nb)
-         got == RecObs(ev.o)
-         same == SameShape(exp, ev.o)
-         parent == IF ev.n < 0 THEN <<>> ELSE stack[ev.n + 1]
+  /\ HaveEvent /\ Ev.e = "arr"
+  /\ LET nb == IF Ev.n < 0 THEN <<>> ELSE SubSeq(mem, 1, Ev.n) \o <<Ev.b>>
+         exp == Obs(Tr.t, Tr.ps, nb)
+         got == RecObs(Ev.o)
+         bad == ObsBad(exp, Ev.o)
+         parent == IF Ev.n < 0 THEN <<>> ELSE stack[Ev.n + 1]
          nm == NonMono(parent, got)
-     IN /\ ev.e = "arr"
-        /\ buf' = nb
+     IN /\ mem' = nb /\ wins' = <<WholeWin(nb), WholeWin(nb)>>
         \* a recording that already disagrees with the reference makes no claims for its extensions
-        /\ stack' = (IF ev.n < 0 THEN <<>> ELSE SubSeq(stack, 1, ev.n + 1)) \o <<IF same THEN got ELSE <<>> >>
-        /\ IF ~same
-           THEN LET d == Diffs(exp, ev.o) IN Report("ObsEqualsReference", [miss |-> d.miss, notes |-> Notes(exp)], d.extra)
-           ELSE TRUE
-        /\ IF nm # {}
-           THEN Report("PrefixMonotone", {parent[j] : j \in nm}, <<>>)
-           ELSE TRUE
-        /\ nbad' = nbad + (IF same THEN 0 ELSE 1) + (IF nm = {} THEN 0 ELSE 1)
-  /\ i' = i + 1 /\ nev' = nev + 1 /\ tid' = tid
+        /\ stack' = (IF Ev.n < 0 THEN <<>> ELSE SubSeq(stack, 1, Ev.n + 1)) \o <<IF bad THEN <<>> ELSE got>>
+        /\ IF bad THEN ObsReport(exp, Ev.o) ELSE TRUE
+        /\ IF nm # {} THEN Report("PrefixMonotone", {parent[j] : j \in nm}, <<>>) ELSE TRUE
+        /\ nbad' = nbad + B01(bad) + B01(nm # {})
+  /\ Step
+
+SetMem ==
+  /\ HaveEvent /\ Ev.e = "mem"
+  /\ LET w1 == [o |-> Ev.a[1], l |-> Ev.a[2]]
+         w2 == [o |-> Ev.b[1], l |-> Ev.b[2]]
+         exp == Obs(Tr.t, Tr.ps, Window(Ev.bytes, w1))
+         bad == ObsBad(exp, Ev.o)
+     IN /\ mem' = Ev.bytes /\ wins' = <<w1, w2>> /\ stack' = <<>>
+        /\ IF bad THEN ObsReport(exp, Ev.o) ELSE TRUE
+        /\ nbad' = nbad + B01(bad)
+  /\ Step
+
+Write ==
+  /\ HaveEvent /\ Ev.e = "wr"
+  /\ LET w == Win(Ev.win)
+         r == WriteResult(Tr.t, Tr.ps, Window(mem, w), Ev.path, Ev.x)
+         expMem == ReplaceWindow(mem, w, r.buf)
+         badRet == Ev.could # B01(r.could) \/ Ev.tried # B01(r.tried)
+         badMem == Ev.after # expMem                    \* WriteFrame: nothing outside the field changes; a failed write changes nothing
+         expObs == Obs(Tr.t, Tr.ps, Window(Ev.after, w))
+         badObs == ObsBad(expObs, Ev.o)
+     IN /\ mem' = Ev.after /\ UNCHANGED <<wins, stack>>
+        /\ IF badRet THEN Report("WriteVerdict", [could |-> B01(r.could), tried |-> B01(r.tried)], [could |-> Ev.could, tried |-> Ev.tried]) ELSE TRUE
+        /\ IF badMem THEN Report("WriteFrame", expMem, Ev.after) ELSE TRUE
+        /\ IF badObs THEN ObsReport(expObs, Ev.o) ELSE TRUE
+        /\ nbad' = nbad + B01(badRet) + B01(badMem) + B01(badObs)
+  /\ Step
+
+EqualsQuery ==
+  /\ HaveEvent /\ Ev.e = "eq"
+  /\ LET a == TopView(Tr.t, Tr.ps, Window(mem, Win(1)))
+         b == TopView(Tr.t, Tr.ps, Window(mem, Win(2)))
+         enabled == VOk(a) /\ VOk(b)            \* the reference only defines Equals on two Ok views
+         e1 == IF enabled THEN B01(VEquals(a, b)) ELSE 0
+         e2 == IF enabled THEN B01(VEquals(b, a)) ELSE 0
+         bad == (Ev.skipped = 1) # ~enabled \/ (enabled /\ (Ev.ab # e1 \/ Ev.ba # e2))
+     IN /\ IF bad THEN Report("EqualsIsLogical", [enabled |-> enabled, ab |-> e1, ba |-> e2], [skipped |-> Ev.skipped, ab |-> Ev.ab, ba |-> Ev.ba]) ELSE TRUE
+        /\ nbad' = nbad + B01(bad)
+  /\ UNCHANGED <<mem, wins, stack>>
+  /\ Step
+
+Copy ==
+  /\ HaveEvent /\ Ev.e = "cp"
+  /\ LET dst == Win(Ev.dst)
+         src == Win(Other(Ev.dst))
+         en == CopyEnabled(Tr.t, Tr.ps, mem, dst, src)
+         expMem == CopyResult(Tr.t, Tr.ps, mem, dst, src)
+         badRet == Ev.ok # B01(en)
+         badMem == Ev.after # expMem
+         expObs == Obs(Tr.t, Tr.ps, Window(Ev.after, dst))
+         badObs == ObsBad(expObs, Ev.o)
+     IN /\ mem' = Ev.after /\ UNCHANGED <<wins, stack>>
+        /\ IF badRet THEN Report("CopyVerdict", B01(en), Ev.ok) ELSE TRUE
+        /\ IF badMem THEN Report("CopyPost", expMem, Ev.after) ELSE TRUE
+        /\ IF badObs THEN ObsReport(expObs, Ev.o) ELSE TRUE
+        /\ nbad' = nbad + B01(badRet) + B01(badMem) + B01(badObs)
+  /\ Step
 
 NextTrace ==
   /\ tid <= Len(Traces) /\ i > Len(Traces[tid].ev)
-  /\ tid' = tid + 1 /\ i' = 1 /\ buf' = <<>> /\ stack' = <<>>
+  /\ tid' = tid + 1 /\ i' = 1 /\ mem' = <<>> /\ wins' = <<WholeWin(<<>>), WholeWin(<<>>)>> /\ stack' = <<>>
   /\ UNCHANGED <<nbad, nev>>
 
 Done ==
   /\ tid = Len(Traces) + 1 /\ i = 1
   /\ PrintT(ToJson([summary |-> TRUE, traces |-> Len(Traces), events |-> nev, bad |-> nbad]))
-  /\ tid' = tid + 1 /\ UNCHANGED <<i, buf, stack, nbad, nev>>
+  /\ tid' = tid + 1 /\ UNCHANGED <<i, mem, wins, stack, nbad, nev>>
 
-Next == Arrive \/ NextTrace \/ Done
+Next == Arrive \/ SetMem \/ Write \/ EqualsQuery \/ Copy \/ NextTrace \/ Done
 Spec == Init /\ [][Next]_vars
 =============================================================================
